@@ -1,4 +1,4 @@
-import IcyVerif.Lemmas.TermStep
+import IcyVerif.Lemmas.TermWrap
 /-! # C01 — no byte stream can crash a terminal emulation
 Theorems for the ANSI emulation (CSI/ESC tables, DCS incl. macro definition/invocation and hex macros, OSC/APS
 framing, ANSI music framing) on a terminal buffer with scrollback, after the repairs recorded in
@@ -6,8 +6,8 @@ framing, ANSI music framing) on a terminal buffer with scrollback, after the rep
 `clampMinMax` (`clamp` with min > max), `negIndex` (negative index cast to `usize`), and `overflow`, which the
 model raises *conservatively* whenever a plain `+`/`-` on the cursor or the buffer height could leave `i32`.
 
-Full statement (every emulation, every sub-language): Avatar, PCBoard, Ctrl-A, Renegade, PETSCII, ATASCII,
-Viewdata, Mode 7, ASCII, and what the external actions do (palette, fonts, hyperlinks, sixel decode, music
+Full statement (every emulation, every sub-language): the theorems cover ANSI, Avatar, PCBoard, Ctrl-A, Renegade;
+PETSCII, ATASCII, Viewdata, Mode 7, ASCII, and what the external actions do (palette, fonts, hyperlinks, sixel decode, music
 list) are covered by the oracle run of `harness/src/c01.rs` only. -/
 namespace IcyVerif.C01
 open IcyVerif.Term
@@ -17,6 +17,14 @@ theorem no_panic_partial (w h : Int) (hw1 : 1 ≤ w) (hw2 : w ≤ 132) (hh1 : 1 
     (cfg : Cfg) (o : Nat → Orc) (bytes : List Char) (e : Panic)
     (hrun : run cfg o (initSt w h) bytes = .error e) : ∃ site, e = Panic.overflow site := by
   have hg := run_good cfg o bytes (initSt w h) (initSt_good w h hw1 hw2 hh1 hh2)
+  rw [hrun] at hg
+  exact hg
+
+/-- the same for Avatar, PCBoard, Ctrl-A and Renegade -/
+theorem no_panic_wrapped_partial (em : Emu) (w h : Int) (hw1 : 1 ≤ w) (hw2 : w ≤ 132) (hh1 : 1 ≤ h) (hh2 : h ≤ 60)
+    (o : Nat → Orc) (bytes : List Char) (e : Panic)
+    (hrun : wrun em o (initW w h) bytes = .error e) : ∃ site, e = Panic.overflow site := by
+  have hg := wrun_good em o bytes (initW w h) (initSt_good w h hw1 hw2 hh1 hh2)
   rw [hrun] at hg
   exact hg
 
